@@ -69,6 +69,15 @@ type Lemma struct {
 	Hints   []string // extra instantiation terms asserted in step
 }
 
+// Pred is a named contract-language predicate (expanded at use).
+type Pred struct {
+	Name   string
+	Params []Binder
+	Body   *Node
+	Pos    string
+	File   string
+}
+
 type GhostField struct {
 	Struct string // qualified named type e.g. "strings.Builder"
 	Name   string
@@ -85,6 +94,7 @@ type Contracts struct {
 	Closed  map[string][]string    // interface -> implementing types
 	Files   []string
 	Guards  map[string]string // guarded_by table: "metrics.Metric.LabelValues" -> lock field expr
+	Preds   map[string]*Pred
 }
 
 var propTagRe = regexp.MustCompile(`\[((?:C\d+\s*)+)\]`)
@@ -100,7 +110,7 @@ func takeProps(s string) (string, []string) {
 
 func loadContracts(root string, extraDirs ...string) (*Contracts, error) {
 	c := &Contracts{Funcs: map[string]*FuncContract{}, Specs: map[string]*SpecFunc{}, Lemmas: map[string]*Lemma{},
-		Ghost: map[string]*GhostField{}, Closed: map[string][]string{}, Guards: map[string]string{}}
+		Ghost: map[string]*GhostField{}, Closed: map[string][]string{}, Guards: map[string]string{}, Preds: map[string]*Pred{}}
 	var files []string
 	filepath.Walk(filepath.Join(root, "internal"), func(p string, info os.FileInfo, err error) error {
 		if err == nil && !info.IsDir() && info.Name() == "contracts_verif.go" {
@@ -127,7 +137,7 @@ type cline struct {
 	pos  string
 }
 
-var topKeywords = map[string]bool{"spec": true, "lemma": true, "axiom": true, "ghost": true, "func": true, "closed": true, "guarded": true}
+var topKeywords = map[string]bool{"spec": true, "lemma": true, "axiom": true, "ghost": true, "func": true, "closed": true, "guarded": true, "pred": true}
 var clauseKeywords = map[string]bool{"requires": true, "ensures": true, "modifies": true, "loop": true, "use": true, "case": true,
 	"assert": true, "using": true, "hint": true, "havoc": true}
 
@@ -168,6 +178,28 @@ func (c *Contracts) parseFile(path string) error {
 	for _, it := range items {
 		kw, rest := splitFirst(it.text)
 		switch kw {
+		case "pred":
+			// pred wf(m *Metric) := expr
+			i := strings.Index(rest, ":=")
+			j := strings.Index(rest, "(")
+			if i < 0 || j < 0 || j > i {
+				return fmt.Errorf("%s: bad pred", it.pos)
+			}
+			pd := &Pred{Name: strings.TrimSpace(rest[:j]), Pos: it.pos, File: path}
+			k := strings.LastIndex(rest[:i], ")")
+			for _, prm := range strings.Split(rest[j+1:k], ",") {
+				fs := strings.Fields(prm)
+				if len(fs) == 2 {
+					pd.Params = append(pd.Params, Binder{fs[0], fs[1]})
+				}
+			}
+			body, err := parseExpr(strings.TrimSpace(rest[i+2:]))
+			if err != nil {
+				return fmt.Errorf("%s: %v", it.pos, err)
+			}
+			pd.Body = body
+			c.Preds[pd.Name] = pd
+			curFunc, curLemma = nil, nil
 		case "spec":
 			sf, err := parseSpec(rest)
 			if err != nil {
@@ -468,10 +500,29 @@ func (c *Contracts) specDecls(mentions func(string) bool) string {
 		}
 	}
 	var b strings.Builder
-	for _, n := range c.SpecOrd {
-		if !need[n] {
-			continue
+	// dependency order (a spec is defined after the specs its body mentions)
+	var order []string
+	state := map[string]int{}
+	var visit func(n string)
+	visit = func(n string) {
+		if state[n] != 0 {
+			return
 		}
+		state[n] = 1
+		for _, m := range c.SpecOrd {
+			if m != n && need[m] && containsSymbol(c.Specs[n].Body, m) {
+				visit(m)
+			}
+		}
+		state[n] = 2
+		order = append(order, n)
+	}
+	for _, n := range c.SpecOrd {
+		if need[n] {
+			visit(n)
+		}
+	}
+	for _, n := range order {
 		sf := c.Specs[n]
 		var ps []string
 		for _, p := range sf.Params {
